@@ -54,8 +54,14 @@ def draw_config(rng, fam=None):
 
 def _sweep_one(args):
     import digital_rf
-    work, n, d, fc, sc, js = args
-    return md.placement_sweep(digital_rf, os.path.join(work, "md", "c13-%d" % os.getpid()), n, d, fc, sc, js, limbs, pd.sub_fields)
+    work, n, d, fc, sc, js, sc2 = args
+    recs = md.placement_sweep(digital_rf, os.path.join(work, "md", "c13-%d" % os.getpid()), n, d, fc, sc, js, limbs, pd.sub_fields)
+    if sc2:
+        # a second channel of the same rate, file cadence and time but another subdirectory cadence, written and read by the
+        # same process right afterwards (nothing one channel's writer or reader worked out may be reused for the other)
+        recs2 = md.placement_sweep(digital_rf, os.path.join(work, "md", "c13b-%d" % os.getpid()), n, d, fc, sc2, js, limbs, pd.sub_fields)
+        return recs, recs2
+    return recs, None
 
 
 def run(ctx):
@@ -73,7 +79,7 @@ def run(ctx):
     nidx = ctx.pick(600, 50000)
     jobs = []
     nhuge = ctx.pick(2, 12)     # configurations in which index * denominator really exceeds 2^64
-    while sum(3 * len(j[5]) for j in jobs) < nidx:
+    while sum(3 * len(j[5]) for j in jobs) < nidx:     # (j[5]: the file numbers of a job)
         n, d, fc, sc = draw_config(rng, "huge" if len(jobs) < nhuge else None)
         y = rng.choice(YEARS + [rng.randint(1980, 2099)])
         t = calendar.timegm((y, rng.randint(1, 12), rng.randint(1, 28), rng.randint(0, 23), rng.randint(0, 59), rng.randint(0, 59)))
@@ -87,14 +93,19 @@ def run(ctx):
             continue
         if len(jobs) < nhuge and (j0 * fc * n // d) * d < 2**64:
             continue
-        jobs.append((ctx.work, n, d, fc, sc, range(j0, j0 + nj)))
+        jobs.append((ctx.work, n, d, fc, sc, range(j0, j0 + nj), sc * rng.choice([2, 3, 24]) if len(jobs) % 3 == 2 else None))
     nconf = len(jobs)
     with quiet_stderr():
         with mc._pool(nconf) as ex:
-            for (_, n, d, fc, sc, js), recs in zip(jobs, ex.map(_sweep_one, jobs, chunksize=2)):
+            for (_, n, d, fc, sc, js, sc2), (recs, recs2) in zip(jobs, ex.map(_sweep_one, jobs, chunksize=2)):
                 tscen.append(dict(name="mdplace%d" % len(tscen), events=recs,
                                   desc="%d/%d Hz, %d s files, %d s subdirs, files %d..%d" % (n, d, fc, sc, js[0], js[-1])))
                 evs += recs
+                if recs2:
+                    tscen.append(dict(name="mdplace%d" % len(tscen), events=recs2,
+                                      desc="%d/%d Hz, %d s files, %d s subdirs, files %d..%d (second channel of the process)"
+                                           % (n, d, fc, sc2, js[0], js[-1])))
+                    evs += recs2
         # protocol half: histories of the metadata model (files found on disk against the partition of the specification)
         s1, bad = mc.e2(ctx, digital_rf, ctx.pick(15, 400), ctx.pick(18, 26), deep=False)
         s2 = mc.e3(ctx, digital_rf, ctx.pick(20, 600), "c12")
